@@ -19,6 +19,26 @@ inductive RErr where
   | badRef
   deriving Repr, DecidableEq, Inhabited
 
+/-- Is `const name T` one of the three logical constants at a genuine instance of its type?
+Returns the carrier type. -/
+def logicalKind (name : String) (T : Ty) : Option (Nat × Ty) :=
+  match name, T with
+  | "equals", .con "fun" [a, .con "fun" [a', .con "bool" []]] => if a = a' then some (0, a) else none
+  | "implies", .con "fun" [.con "bool" [], .con "fun" [.con "bool" [], .con "bool" []]] => some (1, Ty.bool)
+  | "all", .con "fun" [.con "fun" [a, .con "bool" []], .con "bool" []] => some (2, a)
+  | _, _ => none
+
+/-- logical constants occur only at instances of their declared types -/
+def sigOK : Term → Bool
+  | .const n T =>
+    if n == "equals" || n == "implies" || n == "all" then (logicalKind n T).isSome else true
+  | .comb f a => sigOK f && sigOK a
+  | .abs _ _ b => sigOK b
+  | _ => true
+
+/-- every hypothesis and the conclusion are signature-correct -/
+def Thm.sigOK (th : Thm) : Bool := th.hyps.all Holpy.sigOK && Holpy.sigOK th.prop
+
 namespace Thm
 
 def memAeq (t : Term) (l : List Term) : Bool := l.any (fun h => Term.aeq t h)
@@ -155,12 +175,19 @@ def forallElim (s : Term) (th : Thm) : Except RErr Thm :=
   | some _ => .error (.escape .attr)
   | none => .error .invalid
 
-/-- `check_thm_type()`. -/
+/-- the typing half of `check_thm_type()`: every hypothesis and the conclusion has checked type
+`bool` (this was all of `check_thm_type` before the fix; C11 speaks about this half) -/
 def checkThmType (th : Thm) : Bool :=
   (th.hyps ++ [th.prop]).all fun t =>
     match Term.checkedGetType [] t with
     | .ok T => T == Ty.bool
     | .error _ => false
+
+/-- `check_thm_type()` since the fix: additionally the logical constants `equals`/`implies`/`all`
+occur at instances of their declared types only — the rules treat any constant of that name as the
+logical one.  This is what `_check_proof_item` applies to every sequent it keeps. -/
+def checkThmTypeSig (th : Thm) : Bool :=
+  checkThmType th && Holpy.Thm.sigOK th
 
 /-- `can_prove(target)`. -/
 def canProve (self target : Thm) : Bool :=
@@ -174,9 +201,14 @@ inductive Arg where
   | term (t : Term)
   | tyinst (σ : Ty.TyInst)
   | inst (i : Term.Inst)
+  /-- anything else (a Thm, a string, a number, a tuple …): no rule accepts it -/
+  | other
   deriving Repr, Inhabited
 
-/-- Dispatch of `primitive_deriv[rule]` as `_check_proof_item` calls it. -/
+/-- Dispatch of `primitive_deriv[rule]` as `_check_proof_item` calls it: the argument must be `None`
+when the rule's signature is `None` and an instance of the signature class otherwise (since the
+fix), and the number of premises must fit the function (TypeError); both end in
+CheckProofException("invalid input to derivation") = `badInput`. -/
 def applyRule (rule : String) (arg : Arg) (prems : List Thm) : Except RErr Thm :=
   match rule, arg, prems with
   | "assume", .term a, [] => .ok (Thm.assume a)
@@ -203,7 +235,7 @@ def applyRule (rule : String) (arg : Arg) (prems : List Thm) : Except RErr Thm :
 /-- One checker step on a primitive rule: apply, then `check_thm_type`. -/
 def checkStep (rule : String) (arg : Arg) (prems : List Thm) : Except RErr Thm := do
   let th ← applyRule rule arg prems
-  if Thm.checkThmType th then .ok th else .error .typing
+  if Thm.checkThmTypeSig th then .ok th else .error .typing
 
 /-- A flat proof script: each step cites earlier steps by position. -/
 structure Step where
@@ -233,51 +265,86 @@ def runScript : List Step → List Thm → Except RErr (List Thm)
       | .error e => .error e
       | .ok th => runScript rest (acc ++ [th])
 
-/-! ### the `theorem` rule (added for C01 with base-logic axioms; nothing above is changed) -/
+/-! ### the rest of `_check_proof_item`: the `theorem` and `variable` rules, stated sequents -/
 
-/-- argument of a checker step: a primitive rule's argument, or the name the `theorem` rule cites -/
+/-- argument of a checker step: a primitive rule's argument, the name the `theorem` rule cites, or
+the `(name, type)` pair of the `variable` rule -/
 inductive ArgAx where
   | prim (a : Arg)
   | name (s : String)
+  | var (n : String) (T : Ty)
   deriving Repr, Inhabited
 
-/-- One checker step over a theory whose theorems are `axioms` (`Theory._check_proof_item`):
+/-- `Thm.mk_VAR(Var(nm, T))`: the internal proposition `⊢ _VAR nm` -/
+def Thm.mkVAR (n : String) (T : Ty) : Thm :=
+  ⟨[], .comb (.const "_VAR" (Ty.fn T Ty.bool)) (.var n T)⟩
+
+/-- The sequent a step computes (`res_th`) over a theory whose theorems are `axioms`:
 `theorem` copies the stored (schematic) statement `get_theorem(name)` — an unknown name is
-CheckProofException("theorem not found"), premises are not looked at —, every other rule is
-`checkStep`; then `check_thm_type` as for every step. -/
-def checkStepAx (axioms : List (String × Thm)) (rule : String) (arg : ArgAx) (prems : List Thm) :
+CheckProofException("theorem not found") —, `variable` is `mk_VAR` (anything but a pair does not
+unpack: a crash, not an acceptance); both do not look at premises; every other rule is
+`applyRule`. -/
+def applyRuleAx (axioms : List (String × Thm)) (rule : String) (arg : ArgAx) (prems : List Thm) :
     Except RErr Thm :=
   if rule == "theorem" then
     match arg with
     | .name s =>
       match axioms.lookup s with
-      | some th => if Thm.checkThmType th then .ok th else .error .typing
+      | some th => .ok th
       | none => .error .invalid
-    | .prim _ => .error .invalid
+    | _ => .error .invalid
+  else if rule == "variable" then
+    match arg with
+    | .var n T => .ok (Thm.mkVAR n T)
+    | _ => .error (.escape .attr)
   else
     match arg with
-    | .prim a => checkStep rule a prems
-    | .name _ => .error .badInput
+    | .prim a => applyRule rule a prems
+    | _ => .error .badInput
+
+/-- The end of `_check_proof_item`.  Without a stated sequent the computed one is kept; with one,
+the computed sequent must `can_prove` it (same conclusion, hypotheses a subset) and the STATED one
+is kept.  What is kept goes through `check_thm_type`. -/
+def finishStep (res : Thm) (stated : Option Thm) : Except RErr Thm :=
+  match stated with
+  | none => if Thm.checkThmTypeSig res then .ok res else .error .typing
+  | some st =>
+    if Thm.canProve res st then (if Thm.checkThmTypeSig st then .ok st else .error .typing)
+    else .error .invalid
+
+/-- one checker step with an optional stated sequent -/
+def checkStepSt (axioms : List (String × Thm)) (rule : String) (arg : ArgAx) (prems : List Thm)
+    (stated : Option Thm) : Except RErr Thm :=
+  match applyRuleAx axioms rule arg prems with
+  | .error e => .error e
+  | .ok res => finishStep res stated
+
+/-- one checker step without a stated sequent -/
+def checkStepAx (axioms : List (String × Thm)) (rule : String) (arg : ArgAx) (prems : List Thm) :
+    Except RErr Thm :=
+  checkStepSt axioms rule arg prems none
 
 structure StepAx where
   rule : String
   arg : ArgAx
   prevs : List Nat
+  stated : Option Thm := none
   deriving Repr, Inhabited
 
-/-- `runScript` with the `theorem` rule (which does not resolve `prevs`) -/
+/-- `runScript` with the `theorem` / `variable` rules (which do not resolve `prevs`) and stated
+sequents -/
 def runScriptAx (axioms : List (String × Thm)) : List StepAx → List Thm → Except RErr (List Thm)
   | [], acc => .ok acc
   | s :: rest, acc =>
-    if s.rule == "theorem" then
-      match checkStepAx axioms s.rule s.arg [] with
+    if s.rule == "theorem" || s.rule == "variable" then
+      match checkStepSt axioms s.rule s.arg [] s.stated with
       | .error e => .error e
       | .ok th => runScriptAx axioms rest (acc ++ [th])
     else
       match lookupPrems acc s.prevs with
       | .error e => .error e
       | .ok prems =>
-        match checkStepAx axioms s.rule s.arg prems with
+        match checkStepSt axioms s.rule s.arg prems s.stated with
         | .error e => .error e
         | .ok th => runScriptAx axioms rest (acc ++ [th])
 
